@@ -49,6 +49,8 @@ func runProgram(c *Case, fsName string, r0 uint64) (trace []string, segs string,
 	}
 	db.VerifSetHashSeed(c.Cfg.HashSeed)
 	rec := func(f string, a ...interface{}) { trace = append(trace, fmt.Sprintf(f, a...)) }
+	bkNo := 0
+	reseeded := false
 	step := func(op Op) (stop bool) {
 		defer func() {
 			if e := recover(); e != nil {
@@ -75,6 +77,81 @@ func runProgram(c *Case, fsName string, r0 uint64) (trace []string, segs string,
 		case "compact", "compactx":
 			cr, err := db.Compact()
 			rec("compact %s %d %d", errStr(err), cr.CompactedSegments, cr.ReclaimedRecords)
+		case "scan":
+			// a full scan with writers between Next calls: every (key, value) returned, in order
+			it := db.Items()
+			sub := op.Sub
+			n := 0
+			for {
+				for len(sub) > 0 && sub[0].At <= n {
+					u := sub[0]
+					sub = sub[1:]
+					switch u.Kind {
+					case "put":
+						rec("scan.put %s", errStr(db.Put(u.K, u.V)))
+					case "del":
+						rec("scan.del %s", errStr(db.Delete(u.K)))
+					case "compact":
+						_, err := db.Compact()
+						rec("scan.compact %s", errStr(err))
+					}
+				}
+				k, v, err := it.Next()
+				if err != nil {
+					if reseeded {
+						rec("scan.end %s", errStr(err))
+					} else {
+						rec("scan.end %s n=%d", errStr(err), n)
+					}
+					break
+				}
+				if !reseeded {
+					// after a recovery every run has its own random hash seed: the order of a scan (and
+					// with writers in between, what it sees) legitimately differs from run to run
+					rec("scan.next %s %s", hx(k), hx(v))
+				}
+				n++
+				if n > 100000 {
+					break
+				}
+			}
+		case "backup":
+			// Backup with writers placed at its yield points; the backup is opened and observed
+			bkNo++
+			path := filepath.Join(filepath.Dir(dir), fmt.Sprintf("bk%d-%s", bkNo, c.Name))
+			if fsName == "mem" || fsName == "sim" {
+				path = fmt.Sprintf("bk%d-%s", bkNo, c.Name)
+			}
+			sub := op.Sub
+			yieldNo := 0
+			pogreb.VerifSetYield(func(point string) {
+				if !strings.HasPrefix(point, "backup.") {
+					return
+				}
+				for len(sub) > 0 && sub[0].At <= yieldNo {
+					u := sub[0]
+					sub = sub[1:]
+					switch u.Kind {
+					case "put":
+						rec("backup.put %s", errStr(db.Put(u.K, u.V)))
+					case "del":
+						rec("backup.del %s", errStr(db.Delete(u.K)))
+					}
+				}
+				yieldNo++
+			})
+			err := db.Backup(path)
+			pogreb.VerifSetYield(nil)
+			rec("backup %s", errStr(err))
+			if err == nil {
+				o2 := *o
+				if db2, err := pogreb.Open(path, &o2); err != nil {
+					rec("backup.open %s", errStr(err))
+				} else {
+					rec("backup.state %s", observe(db2, c.Pool))
+					rec("backup.close %s", errStr(db2.Close()))
+				}
+			}
 		case "reopen":
 			rec("close %s", errStr(db.Close()))
 			db, e = pogreb.Open(dir, o)
@@ -103,6 +180,7 @@ func runProgram(c *Case, fsName string, r0 uint64) (trace []string, segs string,
 			if e != nil {
 				return true
 			}
+			reseeded = true
 			rec("recovered %s", observe(db, c.Pool))
 		}
 		return false
